@@ -120,13 +120,266 @@ func writeTargets(body ast.Node) map[ast.Expr]bool {
 	return w
 }
 
-// lockWalk visits fd's body in source order, tracking Lock/RLock/Unlock calls
-// on mutex fields (defer Unlock = held to the end), and reports every field
-// access of the watched struct types. Function literals are walked as separate
-// bodies starting with no locks (they may run on another goroutine).
-func lockWalk(p *loadedPkg, name string, body *ast.BlockStmt, watched map[string]bool, out *[]access) {
+// ---- interprocedural lockset ------------------------------------------------
+//
+// Every function body of a package (function literals are bodies of their own)
+// is walked in source order, tracking Lock/RLock/Unlock/RUnlock calls on mutex
+// fields (defer Unlock = held to the end), starting from the function's ENTRY
+// LOCKSET. For an unexported function/method of the package the entry lockset is
+// the intersection of the locksets held at all of its static call sites in the
+// package (expressed in the callee's own receiver/parameter names), computed as
+// the greatest fixpoint over the call graph. Exported functions, function
+// literals, functions used as values (method values, arguments, go / defer
+// targets), methods whose name is called through an interface somewhere in the
+// package, and functions without any static call site start with the empty
+// lockset: an unknown caller promises nothing.
+
+type fnBody struct {
+	name   string
+	body   *ast.BlockStmt
+	obj    *types.Func // nil for function literals
+	recv   string      // receiver name ("" if none)
+	params []string    // parameter names in order ("" / "_" for unnamed)
+	top    []lockHeld  // every lock expressible through receiver/parameters (start of the fixpoint)
+}
+
+type callSite struct {
+	caller string
+	callee *types.Func
+	held   []lockHeld // locks held at the call, in the CALLEE's receiver/parameter names
+}
+
+type lockAnalysis struct {
+	p        *loadedPkg
+	bodies   []*fnBody
+	byObj    map[*types.Func]*fnBody
+	eligible map[*types.Func]bool
+	entry    map[*types.Func][]lockHeld
+	sites    map[*types.Func][]callSite
+}
+
+func isMutexType(t types.Type) bool {
+	ts := t.String()
+	return ts == "sync.Mutex" || ts == "sync.RWMutex"
+}
+
+// mutexesOf lists the locks reachable as <name>.<mutex field> for a variable of (pointer to) struct type.
+func mutexesOf(name string, t types.Type) []lockHeld {
+	nn := namedOf(t)
+	if nn == nil || name == "" || name == "_" {
+		return nil
+	}
+	st, ok := nn.Underlying().(*types.Struct)
+	if !ok {
+		return nil
+	}
+	var out []lockHeld
+	for i := 0; i < st.NumFields(); i++ {
+		if f := st.Field(i); isMutexType(f.Type()) {
+			out = append(out, lockHeld{nn.Obj().Name() + "." + f.Name(), name, "MW"})
+		}
+	}
+	return out
+}
+
+func calleeOf(p *loadedPkg, call *ast.CallExpr) (*types.Func, ast.Expr) {
+	switch f := ast.Unparen(call.Fun).(type) {
+	case *ast.Ident:
+		if o, ok := p.Info.Uses[f].(*types.Func); ok {
+			return o, nil
+		}
+	case *ast.SelectorExpr:
+		if o, ok := p.Info.Uses[f.Sel].(*types.Func); ok {
+			if s, ok := p.Info.Selections[f]; ok {
+				if _, isIface := s.Recv().Underlying().(*types.Interface); isIface {
+					return nil, nil
+				}
+				return o, f.X
+			}
+			return o, nil // package-qualified function
+		}
+	}
+	return nil, nil
+}
+
+func newLockAnalysis(p *loadedPkg) *lockAnalysis {
+	la := &lockAnalysis{p: p, byObj: map[*types.Func]*fnBody{}, eligible: map[*types.Func]bool{}, entry: map[*types.Func][]lockHeld{}, sites: map[*types.Func][]callSite{}}
+	for _, file := range p.Files {
+		for _, d := range file.Decls {
+			fd, ok := d.(*ast.FuncDecl)
+			if !ok || fd.Body == nil {
+				continue
+			}
+			fb := &fnBody{name: funcKey(p, fd), body: fd.Body}
+			fb.obj, _ = p.Info.Defs[fd.Name].(*types.Func)
+			if fd.Recv != nil && len(fd.Recv.List) > 0 && len(fd.Recv.List[0].Names) > 0 {
+				fb.recv = fd.Recv.List[0].Names[0].Name
+				if o := p.Info.Defs[fd.Recv.List[0].Names[0]]; o != nil {
+					fb.top = append(fb.top, mutexesOf(fb.recv, o.Type())...)
+				}
+			}
+			if fd.Type.Params != nil {
+				for _, f := range fd.Type.Params.List {
+					if len(f.Names) == 0 {
+						fb.params = append(fb.params, "")
+					}
+					for _, n := range f.Names {
+						fb.params = append(fb.params, n.Name)
+						if o := p.Info.Defs[n]; o != nil {
+							fb.top = append(fb.top, mutexesOf(n.Name, o.Type())...)
+						}
+					}
+				}
+			}
+			la.bodies = append(la.bodies, fb)
+			if fb.obj != nil {
+				la.byObj[fb.obj] = fb
+			}
+		}
+	}
+	// who may have unknown callers: anything referenced other than as the function of a
+	// plain call statement/expression, go / defer targets, interface-dispatched names
+	callFun := map[*ast.Ident]bool{}
+	escaped := map[*types.Func]bool{}
+	ifaceNames := map[string]bool{}
+	hasSite := map[*types.Func]bool{}
+	for _, file := range p.Files {
+		ast.Inspect(file, func(n ast.Node) bool {
+			switch v := n.(type) {
+			case *ast.GoStmt:
+				if o, _ := calleeOf(p, v.Call); o != nil {
+					escaped[o] = true
+				}
+			case *ast.DeferStmt:
+				if o, _ := calleeOf(p, v.Call); o != nil {
+					escaped[o] = true
+				}
+			case *ast.CallExpr:
+				switch f := ast.Unparen(v.Fun).(type) {
+				case *ast.Ident:
+					callFun[f] = true
+				case *ast.SelectorExpr:
+					callFun[f.Sel] = true
+					if s, ok := p.Info.Selections[f]; ok {
+						if _, isIface := s.Recv().Underlying().(*types.Interface); isIface {
+							ifaceNames[f.Sel.Name] = true
+						}
+					}
+				}
+				if o, _ := calleeOf(p, v); o != nil {
+					hasSite[o] = true
+				}
+			}
+			return true
+		})
+	}
+	for id, o := range p.Info.Uses {
+		if f, ok := o.(*types.Func); ok && !callFun[id] {
+			escaped[f] = true
+		}
+	}
+	for o, fb := range la.byObj {
+		if !o.Exported() && !escaped[o] && !ifaceNames[o.Name()] && hasSite[o] {
+			la.eligible[o] = true
+			la.entry[o] = append([]lockHeld(nil), fb.top...)
+		}
+	}
+	return la
+}
+
+func sameLocks(a, b []lockHeld) bool {
+	if len(a) != len(b) {
+		return false
+	}
+	for i := range a {
+		if a[i] != b[i] {
+			return false
+		}
+	}
+	return true
+}
+
+// meet: locks of a that b also holds (same lock, same object), in the weaker of the two modes
+func meet(a, b []lockHeld) []lockHeld {
+	var out []lockHeld
+	for _, x := range a {
+		best := ""
+		for _, y := range b {
+			if y.name == x.name && y.base == x.base {
+				if y.mode == "MW" {
+					best = "MW"
+				} else if best == "" {
+					best = "MR"
+				}
+			}
+		}
+		if best == "" {
+			continue
+		}
+		if x.mode == "MR" {
+			best = "MR"
+		}
+		dup := false
+		for _, z := range out {
+			if z.name == x.name && z.base == x.base {
+				dup = true
+			}
+		}
+		if !dup {
+			out = append(out, lockHeld{x.name, x.base, best})
+		}
+	}
+	return out
+}
+
+// solve runs the walk to the greatest fixpoint of the entry locksets and returns
+// the accesses (with entry ∪ local locks held) of the watched struct types.
+func (la *lockAnalysis) solve(watched map[string]bool) []access {
+	var accs []access
+	for iter := 0; iter < 50; iter++ {
+		accs = nil
+		la.sites = map[*types.Func][]callSite{}
+		for _, fb := range la.bodies {
+			la.walk(fb.name, fb.body, la.entry[fb.obj], watched, &accs)
+		}
+		changed := false
+		for o := range la.eligible {
+			cur := la.entry[o]
+			nxt := append([]lockHeld(nil), la.byObj[o].top...)
+			for _, s := range la.sites[o] {
+				nxt = meet(nxt, s.held)
+			}
+			if len(la.sites[o]) == 0 {
+				nxt = nil
+			}
+			if !sameLocks(cur, nxt) {
+				la.entry[o] = nxt
+				changed = true
+			}
+		}
+		if !changed {
+			return accs
+		}
+	}
+	// no fixpoint (cannot happen: the sets only shrink): be conservative
+	for o := range la.entry {
+		la.entry[o] = nil
+	}
+	accs = nil
+	la.sites = map[*types.Func][]callSite{}
+	for _, fb := range la.bodies {
+		la.walk(fb.name, fb.body, nil, watched, &accs)
+	}
+	return accs
+}
+
+// walk visits one body in source order starting with the locks in init held.
+// Function literals are walked as separate bodies starting with no locks (they
+// may run on another goroutine).
+func (la *lockAnalysis) walk(name string, body *ast.BlockStmt, init []lockHeld, watched map[string]bool, out *[]access) {
+	p := la.p
 	w := writeTargets(body)
-	var held []lockHeld
+	held := append([]lockHeld(nil), init...)
 	var lits []*ast.FuncLit
 	deferred := map[*ast.CallExpr]bool{}
 	ast.Inspect(body, func(n ast.Node) bool {
@@ -136,12 +389,13 @@ func lockWalk(p *loadedPkg, name string, body *ast.BlockStmt, watched map[string
 			return false
 		case *ast.DeferStmt:
 			deferred[v.Call] = true
+		case *ast.GoStmt:
+			deferred[v.Call] = true
 		case *ast.CallExpr:
 			if sel, ok := v.Fun.(*ast.SelectorExpr); ok {
 				if inner, ok := ast.Unparen(sel.X).(*ast.SelectorExpr); ok {
 					if s, ok := p.Info.Selections[inner]; ok && s.Kind() == types.FieldVal {
-						ts := s.Type().String()
-						if ts == "sync.Mutex" || ts == "sync.RWMutex" {
+						if isMutexType(s.Type()) {
 							owner := "?"
 							if nn := namedOf(s.Recv()); nn != nil {
 								owner = nn.Obj().Name()
@@ -167,6 +421,30 @@ func lockWalk(p *loadedPkg, name string, body *ast.BlockStmt, watched map[string
 					}
 				}
 			}
+			// a static call of a function of this package: record the lockset it is entered with
+			if callee, recvExpr := calleeOf(p, v); callee != nil && la.byObj[callee] != nil && !deferred[v] {
+				cb := la.byObj[callee]
+				subst := map[string]string{}
+				if recvExpr != nil && cb.recv != "" {
+					subst[exprText(recvExpr)] = cb.recv
+				}
+				for i, a := range v.Args {
+					if i < len(cb.params) && cb.params[i] != "" && cb.params[i] != "_" {
+						if t := exprText(a); t != "?" {
+							if _, dup := subst[t]; !dup {
+								subst[t] = cb.params[i]
+							}
+						}
+					}
+				}
+				var tr []lockHeld
+				for _, h := range held {
+					if nb, ok := subst[h.base]; ok {
+						tr = append(tr, lockHeld{h.name, nb, h.mode})
+					}
+				}
+				la.sites[callee] = append(la.sites[callee], callSite{name, callee, tr})
+			}
 		case *ast.SelectorExpr:
 			s, ok := p.Info.Selections[v]
 			if !ok || s.Kind() != types.FieldVal {
@@ -176,8 +454,7 @@ func lockWalk(p *loadedPkg, name string, body *ast.BlockStmt, watched map[string
 			if nn == nil || !watched[nn.Obj().Name()] {
 				return true
 			}
-			ts := s.Type().String()
-			if ts == "sync.Mutex" || ts == "sync.RWMutex" {
+			if isMutexType(s.Type()) {
 				return true
 			}
 			rw := "R"
@@ -189,8 +466,34 @@ func lockWalk(p *loadedPkg, name string, body *ast.BlockStmt, watched map[string
 		return true
 	})
 	for i, l := range lits {
-		lockWalk(p, fmt.Sprintf("%s$%d", name, i+1), l.Body, watched, out)
+		la.walk(fmt.Sprintf("%s$%d", name, i+1), l.Body, nil, watched, out)
 	}
+}
+
+type helperFact struct {
+	fn    string
+	entry []lockHeld
+	sites []callSite
+}
+
+// helpers: every function that is entered with a non-empty lockset, or that touches
+// a watched field (appears in accs) while being a helper candidate, with its call sites.
+func (la *lockAnalysis) helpers(accs []access) []helperFact {
+	touched := map[string]bool{}
+	for _, a := range accs {
+		touched[a.fn] = true
+	}
+	var out []helperFact
+	for _, fb := range la.bodies {
+		if fb.obj == nil || !la.eligible[fb.obj] {
+			continue
+		}
+		if len(la.entry[fb.obj]) == 0 && !touched[fb.name] {
+			continue
+		}
+		out = append(out, helperFact{fb.name, la.entry[fb.obj], la.sites[fb.obj]})
+	}
+	return out
 }
 
 type csFact struct {
@@ -199,51 +502,102 @@ type csFact struct {
 	writes   bool
 }
 
-// csWalk counts, per function body (function literals separately), how many
-// times each watched struct's mutex is acquired (Lock or RLock) and whether the
-// body writes a field of that struct: a read-decide-write on guarded state is
-// atomic only if it happens inside ONE critical section.
-func csWalk(p *loadedPkg, name string, body *ast.BlockStmt, watched map[string]bool, out *[]csFact) {
-	w := writeTargets(body)
-	regions := map[string]int{}
-	writes := map[string]bool{}
-	var lits []*ast.FuncLit
-	ast.Inspect(body, func(n ast.Node) bool {
-		switch v := n.(type) {
-		case *ast.FuncLit:
-			lits = append(lits, v)
-			return false
-		case *ast.CallExpr:
-			if sel, ok := v.Fun.(*ast.SelectorExpr); ok && (sel.Sel.Name == "Lock" || sel.Sel.Name == "RLock") {
-				if inner, ok := ast.Unparen(sel.X).(*ast.SelectorExpr); ok {
-					if s, ok := p.Info.Selections[inner]; ok && s.Kind() == types.FieldVal {
-						ts := s.Type().String()
-						if nn := namedOf(s.Recv()); nn != nil && watched[nn.Obj().Name()] && (ts == "sync.Mutex" || ts == "sync.RWMutex") {
-							regions[nn.Obj().Name()+"."+inner.Sel.Name]++
+// csFacts counts, per function body (function literals separately), how many times
+// each watched struct's mutex is acquired (Lock or RLock) by the body itself AND by
+// the unexported functions of the package it calls (transitively, per call site),
+// and whether the body or such a callee writes a field of that struct: a
+// read-decide-write on guarded state is atomic only if it happens inside ONE critical
+// section. A critical section that calls a lock-free helper is still one region; a
+// function that stitches two locking helpers together has two. Calls of exported
+// functions are not followed (Store then MapCommand is a registration, known not to
+// be atomic and modelled as such).
+func (la *lockAnalysis) csFacts(watched map[string]bool, out *[]csFact) {
+	p := la.p
+	type own struct {
+		regions map[string]int
+		writes  map[string]bool
+		calls   []*types.Func
+	}
+	owns := map[string]*own{}
+	var order []string
+	var scan func(name string, body *ast.BlockStmt)
+	scan = func(name string, body *ast.BlockStmt) {
+		w := writeTargets(body)
+		o := &own{regions: map[string]int{}, writes: map[string]bool{}}
+		owns[name] = o
+		order = append(order, name)
+		var lits []*ast.FuncLit
+		ast.Inspect(body, func(n ast.Node) bool {
+			switch v := n.(type) {
+			case *ast.FuncLit:
+				lits = append(lits, v)
+				return false
+			case *ast.CallExpr:
+				if sel, ok := v.Fun.(*ast.SelectorExpr); ok && (sel.Sel.Name == "Lock" || sel.Sel.Name == "RLock") {
+					if inner, ok := ast.Unparen(sel.X).(*ast.SelectorExpr); ok {
+						if s, ok := p.Info.Selections[inner]; ok && s.Kind() == types.FieldVal {
+							if nn := namedOf(s.Recv()); nn != nil && watched[nn.Obj().Name()] && isMutexType(s.Type()) {
+								o.regions[nn.Obj().Name()+"."+inner.Sel.Name]++
+							}
 						}
 					}
 				}
-			}
-		case *ast.SelectorExpr:
-			if s, ok := p.Info.Selections[v]; ok && s.Kind() == types.FieldVal && w[v] {
-				if nn := namedOf(s.Recv()); nn != nil && watched[nn.Obj().Name()] {
-					writes[nn.Obj().Name()] = true
+				if callee, _ := calleeOf(p, v); callee != nil && la.byObj[callee] != nil && !callee.Exported() {
+					o.calls = append(o.calls, callee)
+				}
+			case *ast.SelectorExpr:
+				if s, ok := p.Info.Selections[v]; ok && s.Kind() == types.FieldVal && w[v] {
+					if nn := namedOf(s.Recv()); nn != nil && watched[nn.Obj().Name()] {
+						o.writes[nn.Obj().Name()] = true
+					}
 				}
 			}
+			return true
+		})
+		for i, l := range lits {
+			scan(fmt.Sprintf("%s$%d", name, i+1), l.Body)
 		}
-		return true
-	})
-	var keys []string
-	for k := range regions {
-		keys = append(keys, k)
 	}
-	sort.Strings(keys)
-	for _, k := range keys {
-		owner := k[:strings.Index(k, ".")]
-		*out = append(*out, csFact{name, k, regions[k], writes[owner]})
+	for _, fb := range la.bodies {
+		scan(fb.name, fb.body)
 	}
-	for i, l := range lits {
-		csWalk(p, fmt.Sprintf("%s$%d", name, i+1), l.Body, watched, out)
+	var total func(name string, stack map[string]bool) (map[string]int, map[string]bool)
+	total = func(name string, stack map[string]bool) (map[string]int, map[string]bool) {
+		r, wr := map[string]int{}, map[string]bool{}
+		o := owns[name]
+		if o == nil || stack[name] {
+			return r, wr
+		}
+		stack[name] = true
+		defer delete(stack, name)
+		for k, v := range o.regions {
+			r[k] += v
+		}
+		for k, v := range o.writes {
+			wr[k] = wr[k] || v
+		}
+		for _, c := range o.calls {
+			cr, cw := total(la.byObj[c].name, stack)
+			for k, v := range cr {
+				r[k] += v
+			}
+			for k, v := range cw {
+				wr[k] = wr[k] || v
+			}
+		}
+		return r, wr
+	}
+	for _, name := range order {
+		r, wr := total(name, map[string]bool{})
+		var keys []string
+		for k := range r {
+			keys = append(keys, k)
+		}
+		sort.Strings(keys)
+		for _, k := range keys {
+			owner := k[:strings.Index(k, ".")]
+			*out = append(*out, csFact{name, k, r[k], wr[owner]})
+		}
 	}
 }
 
@@ -424,6 +778,7 @@ func sliceMuts(p *loadedPkg, out *[]sliceMut) {
 type authSite struct{ fn, arg, kind string }
 
 func authSites(p *loadedPkg, out *[]authSite) {
+	roots := rootNames(p)
 	for _, file := range p.Files {
 		for _, d := range file.Decls {
 			fd, ok := d.(*ast.FuncDecl)
@@ -431,6 +786,9 @@ func authSites(p *loadedPkg, out *[]authSite) {
 				continue
 			}
 			name := funcKey(p, fd)
+			if r, ok := roots[name]; ok {
+				name = r
+			}
 			ast.Inspect(fd.Body, func(n ast.Node) bool {
 				call, ok := n.(*ast.CallExpr)
 				if !ok || len(call.Args) < 1 {
@@ -552,6 +910,7 @@ func hookKind(p *loadedPkg, fd *ast.FuncDecl, rhs ast.Expr) string {
 }
 
 func hookSites(p *loadedPkg, out *[]hookSite) {
+	roots := rootNames(p)
 	for _, file := range p.Files {
 		for _, d := range file.Decls {
 			fd, ok := d.(*ast.FuncDecl)
@@ -559,6 +918,9 @@ func hookSites(p *loadedPkg, out *[]hookSite) {
 				continue
 			}
 			name := funcKey(p, fd)
+			if r, ok := roots[name]; ok {
+				name = r
+			}
 			ast.Inspect(fd.Body, func(n ast.Node) bool {
 				switch v := n.(type) {
 				case *ast.AssignStmt:
@@ -887,71 +1249,394 @@ func keyInstallers(p *loadedPkg) []keyInstaller {
 type storePurge struct{ present, presenceGuard, identityGuard bool }
 
 func storePurgeFact(p *loadedPkg) storePurge {
-	var out storePurge
+	decls := map[*types.Func]*ast.FuncDecl{}
+	var store *ast.FuncDecl
 	for _, file := range p.Files {
 		for _, d := range file.Decls {
-			fd, ok := d.(*ast.FuncDecl)
-			if !ok || fd.Body == nil || funcKey(p, fd) != "security.SessionCache.Store" {
-				continue
+			if fd, ok := d.(*ast.FuncDecl); ok && fd.Body != nil {
+				if o, ok := p.Info.Defs[fd.Name].(*types.Func); ok {
+					decls[o] = fd
+				}
+				if funcKey(p, fd) == "security.SessionCache.Store" {
+					store = fd
+				}
 			}
-			par := map[ast.Node]ast.Node{}
-			var stack []ast.Node
-			ast.Inspect(fd.Body, func(n ast.Node) bool {
-				if n == nil {
-					stack = stack[:len(stack)-1]
-					return true
-				}
-				if len(stack) > 0 {
-					par[n] = stack[len(stack)-1]
-				}
-				stack = append(stack, n)
+		}
+	}
+	if store == nil {
+		return storePurge{}
+	}
+	// scan reports how fd purges command mappings: by a delete on commandMap of its own or
+	// through an unexported function of the package that does (the helper's own guards count
+	// as guards of the purge, as do the guards around the call)
+	var scan func(fd *ast.FuncDecl, seen map[*ast.FuncDecl]bool) storePurge
+	scan = func(fd *ast.FuncDecl, seen map[*ast.FuncDecl]bool) storePurge {
+		var out storePurge
+		if seen[fd] {
+			return out
+		}
+		seen[fd] = true
+		par := map[ast.Node]ast.Node{}
+		var stack []ast.Node
+		ast.Inspect(fd.Body, func(n ast.Node) bool {
+			if n == nil {
+				stack = stack[:len(stack)-1]
 				return true
-			})
-			ast.Inspect(fd.Body, func(n ast.Node) bool {
-				call, ok := n.(*ast.CallExpr)
+			}
+			if len(stack) > 0 {
+				par[n] = stack[len(stack)-1]
+			}
+			stack = append(stack, n)
+			return true
+		})
+		ast.Inspect(fd.Body, func(n ast.Node) bool {
+			call, ok := n.(*ast.CallExpr)
+			if !ok {
+				return true
+			}
+			isPurge := false
+			if id, ok := call.Fun.(*ast.Ident); ok && id.Name == "delete" && len(call.Args) > 0 && strings.HasSuffix(exprText(call.Args[0]), ".commandMap") {
+				isPurge = true
+			} else if callee, _ := calleeOf(p, call); callee != nil && !callee.Exported() && decls[callee] != nil {
+				if sub := scan(decls[callee], seen); sub.present {
+					isPurge = true
+					out.presenceGuard = out.presenceGuard || sub.presenceGuard
+					out.identityGuard = out.identityGuard || sub.identityGuard
+				}
+			}
+			if !isPurge {
+				return true
+			}
+			out.present = true
+			// every enclosing if (other than the per-mapping `sessID == entry.id` test inside the range)
+			for q := par[ast.Node(call)]; q != nil; q = par[q] {
+				is, ok := q.(*ast.IfStmt)
 				if !ok {
-					return true
+					continue
 				}
-				id, ok := call.Fun.(*ast.Ident)
-				if !ok || id.Name != "delete" || len(call.Args) == 0 || !strings.HasSuffix(exprText(call.Args[0]), ".commandMap") {
-					return true
-				}
-				out.present = true
-				// every enclosing if (other than the per-mapping `sessID == entry.id` test inside the range)
-				for q := par[ast.Node(call)]; q != nil; q = par[q] {
-					is, ok := q.(*ast.IfStmt)
-					if !ok {
-						continue
+				okNames := map[string]bool{}
+				if as, ok := is.Init.(*ast.AssignStmt); ok && len(as.Lhs) == 2 {
+					if nm, ok := as.Lhs[1].(*ast.Ident); ok {
+						okNames[nm.Name] = true // comma-ok presence flag
 					}
-					okNames := map[string]bool{}
-					if as, ok := is.Init.(*ast.AssignStmt); ok && len(as.Lhs) == 2 {
-						if nm, ok := as.Lhs[1].(*ast.Ident); ok {
-							okNames[nm.Name] = true // comma-ok presence flag
+				}
+				ast.Inspect(is.Cond, func(x ast.Node) bool {
+					switch v := x.(type) {
+					case *ast.Ident:
+						if okNames[v.Name] || v.Name == "nil" {
+							out.presenceGuard = true
+						}
+					case *ast.CallExpr:
+						if f, ok := v.Fun.(*ast.Ident); ok && f.Name == "len" {
+							out.presenceGuard = true
+						}
+					case *ast.BinaryExpr:
+						if v.Op == token.NEQ && (exprText(v.X) == "entry" || exprText(v.Y) == "entry") {
+							out.identityGuard = true
 						}
 					}
-					ast.Inspect(is.Cond, func(x ast.Node) bool {
-						switch v := x.(type) {
-						case *ast.Ident:
-							if okNames[v.Name] || v.Name == "nil" {
-								out.presenceGuard = true
-							}
-						case *ast.CallExpr:
-							if f, ok := v.Fun.(*ast.Ident); ok && f.Name == "len" {
-								out.presenceGuard = true
-							}
-						case *ast.BinaryExpr:
-							if v.Op == token.NEQ && (exprText(v.X) == "entry" || exprText(v.Y) == "entry") {
-								out.identityGuard = true
+					return true
+				})
+			}
+			return true
+		})
+		return out
+	}
+	return scan(store, map[*ast.FuncDecl]bool{})
+}
+
+// rootNames attributes an unexported function that has exactly one static caller in its
+// package (and is never used as a value) to that caller, transitively: a site that moved
+// into a helper carved out of F is still a site of F.
+func rootNames(p *loadedPkg) map[string]string {
+	la := newLockAnalysis(p)
+	callers := map[*types.Func]map[string]bool{}
+	var scan func(name string, body ast.Node)
+	scan = func(name string, body ast.Node) {
+		ast.Inspect(body, func(n ast.Node) bool {
+			if call, ok := n.(*ast.CallExpr); ok {
+				if callee, _ := calleeOf(p, call); callee != nil && la.eligible[callee] {
+					if callers[callee] == nil {
+						callers[callee] = map[string]bool{}
+					}
+					callers[callee][name] = true
+				}
+			}
+			return true
+		})
+	}
+	for _, fb := range la.bodies {
+		scan(fb.name, fb.body)
+	}
+	parent := map[string]string{}
+	for o, cs := range callers {
+		if len(cs) == 1 {
+			for c := range cs {
+				if c != la.byObj[o].name {
+					parent[la.byObj[o].name] = c
+				}
+			}
+		}
+	}
+	root := map[string]string{}
+	for _, fb := range la.bodies {
+		n := fb.name
+		for i := 0; i < 20; i++ {
+			q, ok := parent[n]
+			if !ok {
+				break
+			}
+			n = q
+		}
+		root[fb.name] = n
+	}
+	return root
+}
+
+// ---- writes to byte slices that may alias cached session key material ----------
+//
+// A SessionEntry's key (KeyInfo.Data) is shared, without a lock, by every connection
+// that resumes the session: it is immutable after construction. keyWrites records every
+// in-place write to a byte slice (element / sub-slice assignment, clear, copy destination,
+// zeroing loop, read-into call) whose target is rooted in a struct field or MAY ALIAS
+// KeyInfo.Data, with that alias verdict. May-alias is a flow-insensitive taint over the
+// package: sources are selections of KeyInfo.Data; it flows through assignments,
+// re-slicing, append-to, slice conversions, composite literals, static calls (argument ->
+// parameter) and returns (result of a function that returns an aliased slice); a fresh
+// copy (append([]byte(nil), x...), bytes.Clone, make+copy) ends it.
+type keyWrite struct {
+	fn, what, target string
+	aliased          bool
+}
+
+func isKeyData(p *loadedPkg, sel *ast.SelectorExpr) bool {
+	s, ok := p.Info.Selections[sel]
+	if !ok || s.Kind() != types.FieldVal || sel.Sel.Name != "Data" {
+		return false
+	}
+	nn := namedOf(s.Recv())
+	return nn != nil && nn.Obj().Name() == "KeyInfo"
+}
+
+func keyWrites(p *loadedPkg, out *[]keyWrite, aliases *[]string) {
+	tainted := map[*types.Var]bool{}
+	taintedRet := map[*types.Func]bool{}
+	isSlice := func(e ast.Expr) bool {
+		tv, ok := p.Info.Types[e]
+		if !ok || tv.Type == nil {
+			return false
+		}
+		_, ok = tv.Type.Underlying().(*types.Slice)
+		return ok
+	}
+	var isT func(e ast.Expr) bool
+	isT = func(e ast.Expr) bool {
+		switch v := ast.Unparen(e).(type) {
+		case *ast.SliceExpr:
+			return isT(v.X)
+		case *ast.Ident:
+			if o, ok := p.Info.Uses[v].(*types.Var); ok {
+				return tainted[o]
+			}
+			if o, ok := p.Info.Defs[v].(*types.Var); ok {
+				return tainted[o]
+			}
+		case *ast.SelectorExpr:
+			if isKeyData(p, v) {
+				return true
+			}
+			if s, ok := p.Info.Selections[v]; ok && s.Kind() == types.FieldVal {
+				if o, ok := s.Obj().(*types.Var); ok {
+					return tainted[o]
+				}
+			}
+		case *ast.CallExpr:
+			if id, ok := v.Fun.(*ast.Ident); ok && id.Name == "append" && len(v.Args) > 0 {
+				if _, isB := p.Info.Uses[id].(*types.Builtin); isB {
+					return isT(v.Args[0])
+				}
+			}
+			if tv, ok := p.Info.Types[v.Fun]; ok && tv.IsType() && len(v.Args) == 1 {
+				return isSlice(v.Args[0]) && isT(v.Args[0]) // []byte(x) of a slice shares the array
+			}
+			if callee, _ := calleeOf(p, v); callee != nil {
+				return taintedRet[callee]
+			}
+		}
+		return false
+	}
+	changed := true
+	mark := func(l ast.Expr) {
+		switch v := ast.Unparen(l).(type) {
+		case *ast.Ident:
+			var o *types.Var
+			if d, ok := p.Info.Defs[v].(*types.Var); ok {
+				o = d
+			} else if u, ok := p.Info.Uses[v].(*types.Var); ok {
+				o = u
+			}
+			if o != nil && !tainted[o] {
+				tainted[o] = true
+				changed = true
+			}
+		case *ast.SelectorExpr:
+			if s, ok := p.Info.Selections[v]; ok && s.Kind() == types.FieldVal {
+				if o, ok := s.Obj().(*types.Var); ok && !tainted[o] {
+					tainted[o] = true
+					changed = true
+				}
+			}
+		}
+	}
+	type fnDecl struct {
+		name string
+		fd   *ast.FuncDecl
+		obj  *types.Func
+	}
+	var fns []fnDecl
+	for _, file := range p.Files {
+		for _, d := range file.Decls {
+			if fd, ok := d.(*ast.FuncDecl); ok && fd.Body != nil {
+				o, _ := p.Info.Defs[fd.Name].(*types.Func)
+				fns = append(fns, fnDecl{funcKey(p, fd), fd, o})
+			}
+		}
+	}
+	for iter := 0; changed && iter < 50; iter++ {
+		changed = false
+		for _, f := range fns {
+			ast.Inspect(f.fd.Body, func(n ast.Node) bool {
+				switch v := n.(type) {
+				case *ast.AssignStmt:
+					if len(v.Lhs) == len(v.Rhs) {
+						for i := range v.Lhs {
+							if isSlice(v.Rhs[i]) && isT(v.Rhs[i]) {
+								mark(v.Lhs[i])
 							}
 						}
-						return true
-					})
+					}
+				case *ast.ValueSpec:
+					if len(v.Names) == len(v.Values) {
+						for i := range v.Names {
+							if isSlice(v.Values[i]) && isT(v.Values[i]) {
+								mark(v.Names[i])
+							}
+						}
+					}
+				case *ast.KeyValueExpr:
+					if k, ok := v.Key.(*ast.Ident); ok && isSlice(v.Value) && isT(v.Value) {
+						if o, ok := p.Info.Uses[k].(*types.Var); ok && o.IsField() && !tainted[o] {
+							tainted[o] = true
+							changed = true
+						}
+					}
+				case *ast.ReturnStmt:
+					for _, r := range v.Results {
+						if f.obj != nil && isSlice(r) && isT(r) && !taintedRet[f.obj] {
+							taintedRet[f.obj] = true
+							changed = true
+						}
+					}
+				case *ast.CallExpr:
+					if callee, _ := calleeOf(p, v); callee != nil && callee.Pkg() == p.Types {
+						if sig, ok := callee.Type().(*types.Signature); ok {
+							for i, a := range v.Args {
+								if !isSlice(a) || !isT(a) {
+									continue
+								}
+								j := i
+								if j >= sig.Params().Len() {
+									j = sig.Params().Len() - 1
+								}
+								if j >= 0 {
+									if o := sig.Params().At(j); !tainted[o] {
+										tainted[o] = true
+										changed = true
+									}
+								}
+							}
+						}
+					}
 				}
 				return true
 			})
 		}
 	}
-	return out
+	var al []string
+	for o := range tainted {
+		if o.IsField() {
+			al = append(al, o.Name())
+		}
+	}
+	sort.Strings(al)
+	*aliases = append(*aliases, al...)
+	fieldRooted := func(e ast.Expr) bool {
+		for {
+			switch v := ast.Unparen(e).(type) {
+			case *ast.SliceExpr:
+				e = v.X
+				continue
+			case *ast.SelectorExpr:
+				s, ok := p.Info.Selections[v]
+				return ok && s.Kind() == types.FieldVal
+			}
+			return false
+		}
+	}
+	isBytes := func(e ast.Expr) bool {
+		tv, ok := p.Info.Types[e]
+		if !ok || tv.Type == nil {
+			return false
+		}
+		sl, ok := tv.Type.Underlying().(*types.Slice)
+		if !ok {
+			return false
+		}
+		b, ok := sl.Elem().Underlying().(*types.Basic)
+		return ok && b.Kind() == types.Uint8
+	}
+	for _, f := range fns {
+		rec := func(what string, target ast.Expr) {
+			if !isBytes(target) {
+				return
+			}
+			al := isT(target)
+			if al || fieldRooted(target) {
+				*out = append(*out, keyWrite{f.name, what, exprText(target), al})
+			}
+		}
+		ast.Inspect(f.fd.Body, func(n ast.Node) bool {
+			switch v := n.(type) {
+			case *ast.AssignStmt:
+				for _, l := range v.Lhs {
+					if ix, ok := ast.Unparen(l).(*ast.IndexExpr); ok {
+						rec("element-assign", ix.X)
+					}
+				}
+			case *ast.IncDecStmt:
+				if ix, ok := ast.Unparen(v.X).(*ast.IndexExpr); ok {
+					rec("element-assign", ix.X)
+				}
+			case *ast.CallExpr:
+				if id, ok := v.Fun.(*ast.Ident); ok && len(v.Args) > 0 {
+					if _, isB := p.Info.Uses[id].(*types.Builtin); isB && (id.Name == "clear" || id.Name == "copy") {
+						rec(id.Name, v.Args[0])
+					}
+				}
+				if callee, _ := calleeOf(p, v); callee != nil && callee.Pkg() != p.Types {
+					switch callee.Name() {
+					case "Read", "ReadFull", "ReadAtLeast", "XORKeyStream", "XORBytes", "PutUint32", "PutUint64", "PutUint16":
+						for _, a := range v.Args {
+							if isBytes(a) && isT(a) {
+								rec("written-by-"+callee.Name(), a)
+							}
+						}
+					}
+				}
+			}
+			return true
+		})
+	}
 }
 
 // ---- broker stream I/O -----------------------------------------------------
@@ -1074,21 +1759,18 @@ func factsC17(b *strings.Builder) error {
 			if !ok || fd.Body == nil {
 				continue
 			}
-			lockWalk(sec, funcKey(sec, fd), fd.Body, map[string]bool{"SessionCache": true, "SessionEntry": true}, &accs)
-			csWalk(sec, funcKey(sec, fd), fd.Body, map[string]bool{"SessionCache": true}, &css)
 			varWalk(sec, funcKey(sec, fd), fd, vars, &vfs, &cops)
 		}
 	}
+	secLA := newLockAnalysis(sec)
+	accs = secLA.solve(map[string]bool{"SessionCache": true, "SessionEntry": true})
+	helpers := secLA.helpers(accs)
+	secLA.csFacts(map[string]bool{"SessionCache": true}, &css)
 	nCache := len(accs)
-	for _, file := range ccb.Files {
-		for _, d := range file.Decls {
-			fd, ok := d.(*ast.FuncDecl)
-			if !ok || fd.Body == nil {
-				continue
-			}
-			lockWalk(ccb, funcKey(ccb, fd), fd.Body, map[string]bool{"brokerReg": true}, &accs)
-		}
-	}
+	ccbLA := newLockAnalysis(ccb)
+	ccbAccs := ccbLA.solve(map[string]bool{"brokerReg": true})
+	accs = append(accs, ccbAccs...)
+	helpers = append(helpers, ccbLA.helpers(ccbAccs)...)
 	if nCache == 0 || len(accs) == nCache {
 		return fmt.Errorf("no SessionCache/SessionEntry or brokerReg field access found: the anchored code moved")
 	}
@@ -1118,6 +1800,18 @@ func factsC17(b *strings.Builder) error {
 			sep = ""
 		}
 		fmt.Fprintf(b, "  mk_lf %s %s A%s %s %s%s\n", coqStr(a.fn), coqStr(a.field), a.rw, coqStr(a.base), heldTerm(a.held), sep)
+	}
+	b.WriteString("].\n\n(* unexported functions entered with a lockset: the claimed entry lockset and the lockset held at every static call site (in the callee's names) *)\nDefinition helper_facts : list helper_fact := [\n")
+	for i, h := range helpers {
+		sep := ";"
+		if i == len(helpers)-1 {
+			sep = ""
+		}
+		var ss []string
+		for _, c := range h.sites {
+			ss = append(ss, fmt.Sprintf("(%s, %s)", coqStr(c.caller), heldTerm(c.held)))
+		}
+		fmt.Fprintf(b, "  mk_hf %s %s [%s]%s\n", coqStr(h.fn), heldTerm(h.entry), strings.Join(ss, "; "), sep)
 	}
 	b.WriteString("].\n\nDefinition cs_facts : list cs_fact := [\n")
 	for i, c := range css {
@@ -1154,6 +1848,27 @@ func factsC17(b *strings.Builder) error {
 			sep = ""
 		}
 		fmt.Fprintf(b, "  mk_sm %s %s %s%s\n", coqStr(m.fn), coqStr(m.what), coqStr(m.base), sep)
+	}
+	b.WriteString("].\n\n")
+	var kws []keyWrite
+	var kal []string
+	for _, sp := range []string{"security", "client", "server", "ccb"} {
+		keyWrites(pk[sp], &kws, &kal)
+	}
+	{
+		var q []string
+		for _, x := range kal {
+			q = append(q, coqStr(x))
+		}
+		fmt.Fprintf(b, "(* informational: struct fields that may alias a cached session key *)\nDefinition key_alias_fields : list string := [%s].\n\n", strings.Join(q, "; "))
+	}
+	b.WriteString("(* in-place writes to byte slices rooted in a struct field or possibly aliasing a cached session key (KeyInfo.Data) *)\nDefinition key_writes : list key_write := [\n")
+	for i, k := range kws {
+		sep := ";"
+		if i == len(kws)-1 {
+			sep = ""
+		}
+		fmt.Fprintf(b, "  mk_kw %s %s %s %v%s\n", coqStr(k.fn), coqStr(k.what), coqStr(k.target), k.aliased, sep)
 	}
 	b.WriteString("].\n\nDefinition auth_sites : list auth_site := [\n")
 	for i, s := range sites {
